@@ -187,4 +187,27 @@ theorem den_clean (G : JsonG) : ∀ n t d, Den G n t d →
       refine ⟨_, cleanup_vnode G _ _ hc, ?_⟩
       simp [entry, pyval]
 
+/-- a squashable symbol that is not kept disappears around a container item: cleaning `name[x]` as a container item
+is cleaning `x` (as the child of `name`) -/
+theorem cleanup_squash_in_container (cl : Cleanuper) (name : Name) (x : Val)
+    (hT : lookup cl.templates name = none) (hs : name ∈ cl.squash) (hk : name ∉ cl.keep) :
+    cleanup cl (.elem name false (.list [x])) true false = cleanup cl x false (decide (name ∈ cl.choice)) := by
+  have h2 : decide (name ∈ cl.keep) = false := by simp [hk]
+  simp only [cleanup, hT, cleanupAll, bind, Except.bind, pure, Except.pure]
+  cases cleanup cl x false (decide (name ∈ cl.choice)) with
+  | error e => simp
+  | ok r => simp [squashStep, hs, h2]
+
+/-- a kept squashable symbol stays (as a non-leaf element with its single cleaned child) when the child is kept too:
+because it is a kept symbol or because it was selected by a choice symbol -/
+theorem cleanup_kept_in_container (cl : Cleanuper) (name : Name) (x : Val) (r : El × Bool) (fc : Bool)
+    (hT : lookup cl.templates name = none) (hs : name ∈ cl.squash) (hk : name ∈ cl.keep)
+    (hx : cleanup cl x false (decide (name ∈ cl.choice)) = .ok r) (hc : r.2 = true ∨ r.1.1 ∈ cl.keep) :
+    cleanup cl (.elem name false (.list [x])) fc false = .ok ((name, false, .list [r.1.toVal]), true) := by
+  have h2 : decide (name ∈ cl.keep) = true := by simp [hk]
+  have h3 : (r.2 || decide (r.1.1 ∈ cl.keep)) = true := by
+    rcases hc with h | h <;> simp [h]
+  simp only [cleanup, hT, cleanupAll, bind, Except.bind, pure, Except.pure, hx]
+  simp [squashStep, hs, h2, h3]
+
 end Templates
